@@ -65,14 +65,14 @@ def v1Prefix (magic : Nat) : List UInt8 :=
 
 inductive Status where
   | ok | io | auth | useV1 | downgradeV1 | wrongnetV1 | noTerminator | contentTooLong
-  | garbageTooLarge | internal
+  | garbageTooLarge | internal | admission
 deriving DecidableEq, Repr
 
 def Status.toString : Status → String
   | .ok => "ok" | .io => "io" | .auth => "auth" | .useV1 => "use-v1"
   | .downgradeV1 => "downgrade-v1" | .wrongnetV1 => "wrongnet-v1"
   | .noTerminator => "no-terminator" | .contentTooLong => "content-too-long"
-  | .garbageTooLarge => "garbage-too-large" | .internal => "internal"
+  | .garbageTooLarge => "garbage-too-large" | .internal => "internal" | .admission => "admission"
 
 /-- result of a handshake: bytes written, status, session state (when key agreement completed),
 unread rest of the input -/
@@ -175,5 +175,39 @@ def responder (P : Prims) (K : Kdf) (magic : Nat) (rnd : List UInt8) (gLen : Nat
       | none => ⟨written, .internal, none, inp.drop 64⟩
       | some secret =>
         completeAfterKeys P (mkSession (schedule K secret magic) false) garbage decoys written (inp.drop 64)
+
+/-- RespondV2Handshake + CompleteHandshake with a HandshakeAdmission installed
+(`WithResponderHandshakeAdmission`). `adm`: 0 = none / always admits, 1 = the first Acquire (before
+key generation) fails, 2 = the second Acquire (before key agreement) fails, ≥ 3 = admits.
+Result: the handshake outcome and the numbers of successful-or-attempted Acquire calls and of
+release calls. The v1 path never consults the admission; a rejected first Acquire writes nothing;
+every acquired lease is released before network I/O continues. -/
+def responderAdm (P : Prims) (K : Kdf) (magic : Nat) (rnd : List UInt8) (gLen : Nat) (decoys : List Nat)
+    (inp : List UInt8) (adm : Nat) : HsOut × Nat × Nat :=
+  let v1 := v1Prefix magic
+  match v1Mismatch v1 inp 16 0 with
+  | .error e => (⟨[], e, none, []⟩, 0, 0)
+  | .ok _ =>
+    if adm = 1 then (⟨[], .admission, none, inp⟩, 1, 0) else
+    match Ellswift.create rnd with
+    | none => (⟨[], .internal, none, inp⟩, 1, 1)
+    | some (_, ell, rnd') =>
+      if gLen > 4095 then (⟨[], .garbageTooLarge, none, inp⟩, 1, 1) else
+      let written := ell ++ rnd'.take gLen
+      if inp.length < 64 then (⟨written, .io, none, []⟩, 1, 1) else
+      if ((inp.take 64).drop 4).take 12 = (v1.drop 4).take 12 then (⟨written, .wrongnetV1, none, inp.drop 64⟩, 1, 1) else
+      if adm = 2 then (⟨written, .admission, none, inp.drop 64⟩, 2, 1) else
+      (responder P K magic rnd gLen decoys inp, 2, 2)
+
+/-- `Peer.ReceivedPrefix()` after RespondV2Handshake: the bytes consumed while classifying the
+transport — the 16 matching bytes for a v1 peer (peer.go hands them to the v1 message reader),
+the bytes up to and including the first mismatch if the handshake stopped before the rest of the
+key arrived, the full 64-byte key otherwise. `stopped` = the responder gave up before reading the
+rest of the key (admission rejected, garbage too large). -/
+def responderPrefix (magic : Nat) (inp : List UInt8) (stopped : Bool) : List UInt8 :=
+  match v1Mismatch (v1Prefix magic) inp 16 0 with
+  | .error .useV1 => inp.take 16
+  | .error _ => inp.take 16
+  | .ok i => if stopped ∨ inp.length < 64 then inp.take (i + 1) else inp.take 64
 
 end BV.C19
